@@ -141,6 +141,28 @@ func hC14Observe(h *hMod, how int) {
 		_ = h.b.Term.Succs()
 		_ = h.f.Type()
 		_ = h.b.LLString()
+		// every identifier, type, text and operand query of every entity of the
+		// function and of the module's globals (none of them is a print of the
+		// function or the module)
+		_, _, _ = h.f.Ident(), h.f.String(), h.f.Name()
+		for _, p := range h.f.Params {
+			_, _, _, _ = p.Ident(), p.String(), p.Type(), p.LLString()
+		}
+		for _, blk := range h.f.Blocks {
+			_, _, _, _ = blk.Ident(), blk.String(), blk.Type(), blk.Name()
+			ba := constant.NewBlockAddress(h.f, blk)
+			_, _ = ba.Ident(), ba.String()
+			for _, inst := range blk.Insts {
+				if v, ok := inst.(value.Named); ok {
+					_, _, _, _ = v.Ident(), v.String(), v.Type(), v.Name()
+				}
+				_, _ = inst.LLString(), inst.Operands()
+			}
+			_, _, _ = blk.Term.LLString(), blk.Term.Succs(), blk.Term.Operands()
+		}
+		for _, g := range h.m.Globals {
+			_, _, _, _ = g.Ident(), g.String(), g.Type(), g.LLString()
+		}
 	}
 }
 
